@@ -237,7 +237,7 @@ impl Default for GridOpts {
             extrapolate: false,
             max_nx: 12,
             max_ny: 9,
-            max_lane_rank: 3,
+            max_lane_rank: 4,
             allow_zero_lanes: false,
             allow_cluster: true,
         }
